@@ -199,10 +199,42 @@ pub fn pages_of_str(s: &str) -> Vec<Page<'static>> {
     if s == "-" {
         vec![]
     } else {
-        s.split('+').map(page_of_str).collect()
+        // pages are built over owned buffers or as views of borrowed ones (leaked: the harness is short-lived),
+        // alternating by position and content, so that both constructions are sent through the controller
+        s.split('+')
+            .enumerate()
+            .map(|(i, lit)| {
+                let p: Vec<&str> = lit.split('.').collect();
+                let bytes = bytes_of_hex(p[2]);
+                if (i + bytes.iter().map(|b| *b as usize).sum::<usize>()) % 2 == 0 {
+                    let leaked: &'static [u8] = Box::leak(bytes.into_boxed_slice());
+                    Page::from_bytes(p[0].parse().unwrap(), p[1].parse().unwrap(), leaked).expect("bad page literal")
+                } else {
+                    page_of_str(lit)
+                }
+            })
+            .collect()
     }
 }
 
+/// The same hash computed from page literals `w.h.hexbytes` WITHOUT going through the library's Page type.
+pub fn hash_page_literals(lits: &[String]) -> String {
+    let mut h: u64 = 0xcbf29ce484222325;
+    let mut add = |v: u64| {
+        h = (h ^ v).wrapping_mul(1099511628211);
+    };
+    for l in lits {
+        let q: Vec<&str> = l.split('.').collect();
+        let bytes = bytes_of_hex(q[2]);
+        add(q[0].parse::<u64>().unwrap());
+        add(q[1].parse::<u64>().unwrap());
+        add(bytes.len() as u64);
+        for b in &bytes {
+            add(*b as u64);
+        }
+    }
+    format!("{:x}", h)
+}
 pub fn hash_pages(ps: &[Page<'_>]) -> String {
     let mut h: u64 = 0xcbf29ce484222325;
     let mut add = |v: u64| {
